@@ -146,7 +146,7 @@ impl<'b> MessageBuilder<'b, '_> {
     pub fn truncate(&mut self) {
         self.message.header.flags.set_tc(true);
         self.offset = 0;
-        // TODO: Reset the name compressor.
+        self.compressor.truncate(0);
     }
 
     /// Append a message item.
@@ -184,13 +184,18 @@ impl<'b> MessageBuilder<'b, '_> {
         }
 
         // Try to build the item.
-        self.offset = item.build_in_message(
+        match item.build_in_message(
             &mut self.message.contents,
             self.offset,
             self.compressor,
-        )?;
-
-        // TODO: Reset the name compressor in case of failure.
+        ) {
+            Ok(offset) => self.offset = offset,
+            Err(err) => {
+                // The item may have recorded names before it failed.
+                self.compressor.truncate(self.offset);
+                return Err(err.into());
+            }
+        }
 
         // Update the section counts, now that we have succeeded.
         counts[section] += 1;
